@@ -56,6 +56,20 @@ CHECKS = {
         technique="exhaustive fault-position enumeration with a logging harness megacomplex",
         ref="DESIGN.md section 4 C15",
     ),
+    "C08": dict(
+        level="exploration",
+        text="Exhaustive enumeration (unit level) of every axis that is a subset (size 1-5) of a 7-point dyadic grid x every ordered bound pair from {-inf, below, on a point, quarter point, exact midpoint, above, +inf} x 1-2 intervals x item kind against an interval reference model written from the statement (inside subset-of S subset-of inside+nearest-range, monotone, only = complement of zero, union for lists), plus Hypothesis-generated schemes through optimize() decoding the affected sets from reported clps / weights / penalties / clp counts, and the dataset-weight-wins-with-warning rule.",
+        note="Float-fragile decisions (bound within 1e-9 of a point, nearest-point ties) are left open in the reference (set of admissible outcomes). Exhaustive only over the stated grid.",
+        technique="exhaustive enumeration + property-based testing against an interval reference model",
+        ref="DESIGN.md section 4 C08",
+    ),
+    "C05": dict(
+        level="exploration",
+        text="Hypothesis-generated rates, widths, times (log-spaced, uniform and clustered around the numerical branch switch), 1-3 Gaussians with the documented broadcast patterns, normalise on/off, per-index shifts and centre/width dispersion in both dispersion variables; each decay column obtained through the public calculate_matrix path is compared with a 60-digit mpmath closed form (itself self-checked against quadrature of the defining convolution), per index with the documented effective centre/width and with an index-independent twin model; result variables of a one-evaluation optimize() are checked too.",
+        note="Tolerance 1e-11 relative + 1e-13 of the column maximum, plus the first-order effect of the unavoidable rounding of the effective centre/width. Rate order / A-matrix taken from the megacomplex (C04's subject).",
+        technique="property-based testing against a high-precision (mpmath) reference + metamorphic twin models",
+        ref="DESIGN.md section 4 C05",
+    ),
 }
 
 PENDING_REASON = "check not built yet in this session (planned, see DESIGN.md section 4); nothing is claimed for it"
